@@ -3,7 +3,7 @@
    size x outputs x batch size per axis (including batches smaller than the dimension). *)
 EXTENDS Naturals, Sequences, FiniteSets, TLC, Json
 VARIABLES cfg
-Ops == {"lap", "div", "veclap", "veclapdef", "adv", "masscons", "burgers", "fisher"}
+Ops == {"lap", "div", "veclap", "veclapdef", "adv", "masscons", "burgers", "fisher", "ou", "ns"}
 All == [kind : {"fr_struct"}, op : Ops, d : 1..3, withT : BOOLEAN, R : 1..2, M : 1..2, b : 1..3, deg : 1..2, Tmax : {1, 2}]
 NS(c) == c.d - (IF c.withT THEN 1 ELSE 0)          \* number of spatial dimensions
 OK(c) == /\ NS(c) >= 1
@@ -14,7 +14,9 @@ OK(c) == /\ NS(c) >= 1
          /\ (c.op = "masscons" => ~c.withT /\ c.d = 2 /\ c.M = 2)
          /\ (c.op = "burgers" => c.withT /\ c.d = 2 /\ c.M = 1)
          /\ (c.op = "fisher" => c.withT /\ c.M = 1)
-         /\ (c.op \notin {"burgers", "fisher"} => c.Tmax = 1)
+         /\ (c.op = "ou" => c.withT /\ c.d = 3 /\ c.M = 1)
+         /\ (c.op = "ns" => ~c.withT /\ c.d = 2 /\ c.M = 2)
+         /\ (c.op \notin {"burgers", "fisher", "ou"} => c.Tmax = 1)
          /\ (c.d = 3 => c.b <= 2 /\ c.deg = 1)
 Init == cfg \in {c \in All : OK(c)}
 Next == UNCHANGED cfg
